@@ -358,7 +358,13 @@ func ZZ_C19_Forward() {
 	npost := 1 + zz.Choose("npost", 2)
 	var post []string
 	for k := 0; k < npost; k++ {
-		post = append(post, zz.Str(fmt.Sprintf("post%d", k), zz.Param("arglen", 4), zzArgAlphabet+"}."))
+		alphabet := zzArgAlphabet + "}."
+		if zz.Param("novalue_alphabet", 0) == 1 {
+			// the letters of the text the templater removes after rendering (run with
+			// __tmplsrc=1, where that clean-up executes from source)
+			alphabet = "<no value>"
+		}
+		post = append(post, zz.Str(fmt.Sprintf("post%d", k), zz.Param("arglen", 4), alphabet))
 	}
 	zzSetArgv([]string{"show"}, post, true)
 	argv, cli, err := Get()
@@ -571,6 +577,43 @@ func ZZ_CLI_ExitStatus_native() {
 // ZZ_C12_QueryFlags_native replays a model of cmd/task's ZZ_C12_QueryFlagsMeanDry against the
 // built binary: a fingerprinted task run once; a source edited; the query; then the project
 // tree must be unchanged, and a following run must still see the edit.
+// ZZ_C05_StateDir_native: the same question asked of the built binary: run from the root,
+// then from the chosen directory below it with nothing changed: the commands do not run
+// again, and the state sits where TASK_TEMP_DIR and the Taskfile's directory say.
+func ZZ_C05_StateDir_native() {
+	inv := []string{"", "", "sub", "sub/deeper"}[zz.Choose("invocation_dir", 4)]
+	tdKind := zz.Choose("TASK_TEMP_DIR", 3)
+	bin, err := zzBuildCLI()
+	if err != nil {
+		fmt.Println("ZZ-NOTE build failed:", err)
+		return
+	}
+	defer os.RemoveAll(filepath.Dir(bin))
+	wd, _ := os.MkdirTemp("", "zzwd")
+	wd, _ = filepath.EvalSymlinks(wd)
+	defer os.RemoveAll(wd)
+	abs, _ := os.MkdirTemp("", "zzabs")
+	defer os.RemoveAll(abs)
+	td := []string{"", "tmp", abs}[tdKind]
+	want := []string{filepath.Join(wd, ".task"), filepath.Join(wd, "tmp"), filepath.Join(abs, filepath.Base(wd))}[tdKind]
+	os.MkdirAll(filepath.Join(wd, "sub", "deeper"), 0o755)
+	os.WriteFile(filepath.Join(wd, "Taskfile.yml"), []byte("version: '3'\nsilent: true\ntasks:\n  show:\n    sources: ['*.src']\n    cmds:\n      - echo RAN >> trace.log\n"), 0o644)
+	os.WriteFile(filepath.Join(wd, "a.src"), []byte("v0"), 0o644)
+	run := func(dir string) {
+		c := exec.Command(bin, "show")
+		c.Dir = filepath.Join(wd, dir)
+		c.Env = append(os.Environ(), "TASK_TEMP_DIR="+td)
+		out, err := c.CombinedOutput()
+		fmt.Printf("ZZ-NOTE in %q -> %q %v\n", dir, out, err)
+	}
+	run("")
+	run(inv)
+	b, _ := os.ReadFile(filepath.Join(wd, "trace.log"))
+	_, serr := os.Stat(filepath.Join(want, "checksum", "show"))
+	fmt.Printf("ZZ-NOTE trace %q state at %s: %v\n", b, want, serr)
+	zz.Assert(strings.Count(string(b), "RAN") == 1 && serr == nil, "fingerprint-state-lives-with-the-taskfile")
+}
+
 func ZZ_C12_QueryFlags_native() {
 	dry, status := zz.Bool("flag_dry"), zz.Bool("flag_status")
 	force, summary := zz.Bool("flag_force"), zz.Bool("flag_summary")
